@@ -1,8 +1,164 @@
-"""C09 — desync detection raises no false alarm and catches real divergence."""
+"""C09 — desync detection raises no false alarm and catches real divergence.
+
+proof side      : coq/Desync.v (model of check_checksum_send_interval / compare_local_checksums_against_peers),
+                  DesyncProofs.v, props/C09.v; premise from C01: SessionTimeline.confirmed_saved_states_are_replays
+correspondence  : level `desync` - one real P2PSession (desync detection on) with puppet peers; at every
+                  advance_frame the harness records what the detection read (last confirmed frame, saved cells:
+                  hook accessor verif_desync) and what it did (report sent, DesyncDetected events, history,
+                  pending maps); the extracted model is fed the same readings and reports and must agree
+monitors        : level `desync`: honest reports (the checksum saved for a confirmed frame) never raise an event;
+                  a wrong report for a frame in the local history is flagged by the next call that has confirmed
+                  that frame.  L4 simulation: deterministic games never raise DesyncDetected; games that diverge
+                  from a frame on are reported by both peers at or after that frame."""
+import re
 from . import families as F
 from .simprops import generic_run, sizes, sim_replay
 LABELS = {"C09", "PANIC"}
+
+DS = re.compile(r" \| ds pre=L:(-?\d+);cells:(\S*) rep=(\S+) ev=(\S+) sent=(-?\d+) hist=(\S+) pend=(\S*)$")
+
+def gen_scenario(rng, honest):
+    w = rng.choice([2, 4, 8]); sparse = rng.choice([0, 0, 1]); interval = rng.choice([1, 2, 3, 5, 40]); neps = rng.choice([1, 1, 2])
+    kinds = "L," + ",".join("R%d" % e for e in range(neps))
+    lines = ["new players=%d window=%d sparse=%d pred=repeat delay=0 kinds=%s spectators=0 desync=%d" % (1 + neps, w, sparse, kinds, interval), "sync"]
+    nextf = [0] * neps
+    val = [rng.randrange(6) for _ in range(neps)]
+    cur = 0
+    for step in range(rng.randrange(40, 140)):
+        for e in range(neps):
+            # remote inputs arrive in order, sometimes in bursts, sometimes lagging (stalls, rollbacks)
+            k = rng.choice([0, 1, 1, 1, 2, 3]) if nextf[e] <= cur + 1 else rng.choice([0, 0, 1])
+            for _ in range(k):
+                if rng.random() < 0.4:
+                    val[e] = rng.randrange(6)
+                lines.append("rin %d %d %d" % (e, nextf[e], val[e])); nextf[e] += 1
+        if rng.random() < 0.5:
+            e = rng.randrange(neps)
+            conf = min(nextf) - 1
+            if honest:
+                # an honest peer reports the checksum of a frame that is confirmed (on the interval grid or not):
+                # `conf<k>` = k frames below the session's own last confirmed frame, `match` = the checksum saved
+                lines.append("report %d conf%d match" % (e, rng.choice([0, 0, 1, 2, interval, 2 * interval, 3 * interval + 1])))
+            else:
+                f = rng.randrange(max(0, conf - 3 * interval - 2), max(1, conf + 3))
+                lines.append("report %d %d %s" % (e, f, rng.choice(["match", "match", str(rng.randrange(1, 50)), str(f * 1000 + 1)])))
+        lines.append("local 0 %d" % rng.randrange(4))
+        lines.append("advance")
+        cur += 1
+    return {"lines": lines, "honest": honest, "interval": interval, "neps": neps}
+
+def model_script(scen, out):
+    """the model sees the reports (with the resolved checksum) and, per successful advance, what the session read"""
+    ms, idx = [], []
+    for i, (op, r) in enumerate(zip(scen["lines"], out)):
+        t = op.split()
+        if t[0] == "new":
+            ms.append("new interval=%d eps=%d" % (scen["interval"], scen["neps"])); idx.append(i)
+        elif t[0] == "report" and r.startswith("ok f="):
+            f, cs = r[3:].split()
+            ms.append("report %s %s %s" % (t[1], f[2:], cs[3:])); idx.append(i)
+        elif t[0] == "advance":
+            m = DS.search(r)
+            if m:
+                ms.append("advance L=%s cells=%s" % (m.group(1), m.group(2))); idx.append(i)
+    return ms, idx
+
+def monitor(scen, out):
+    """implementation-side: honest reports never raise an event; a wrong report for a frame in the local
+    history is flagged as soon as a call has confirmed that frame"""
+    hits = []
+    hist, lastL = {}, -1
+    owed = {}     # (ep, frame) -> (local, remote) that must be reported once L > frame
+    for op, r in zip(scen["lines"], out):
+        t = op.split()
+        if r.startswith("panic") or r == "dead":
+            hits.append(("panic", "`%s` answered `%s`" % (op, r[:80]))); break
+        if t[0] == "report" and r.startswith("ok f="):
+            f, cs = int(r.split()[1][2:]), int(r.split()[2][3:])
+            if f in hist:
+                if hist[f] != cs:
+                    owed[(int(t[1]), f)] = (hist[f], cs)
+                else:
+                    owed.pop((int(t[1]), f), None)
+        if t[0] == "advance":
+            m = DS.search(r)
+            if not m:
+                continue
+            L = int(m.group(1))
+            evs = [] if m.group(4) == "-" else [tuple(int(x) for x in e.split("/")) for e in m.group(4).split(";")]
+            if scen["honest"] and evs:
+                hits.append(("false-alarm", "DesyncDetected %s although every report carried the checksum saved for a confirmed frame (%s)" % (evs, scen["lines"][0])))
+                break
+            for (ep, f), (lc, rc) in list(owed.items()):
+                if L > f:
+                    if (ep, f, lc, rc) not in evs:
+                        hits.append(("missed-desync", "endpoint %d reported %d for frame %d, the local history holds %d, the call with last confirmed frame %d raised %s (%s)" % (ep, rc, f, lc, L, evs, scen["lines"][0])))
+                    del owed[(ep, f)]
+            if hits:
+                break
+            hist = {} if m.group(6) == "-" else {int(x.split(":")[0]): int(x.split(":")[1]) for x in m.group(6).split(",")}
+            # entries dropped from the history can no longer be compared
+            owed = {k: v for k, v in owed.items() if k[1] in hist}
+    return hits
+
+def run_desync_level(ctx):
+    rng = ctx.rng
+    n = 400 if ctx.thorough else 60
+    scens = [gen_scenario(rng, honest=(i % 2 == 0)) for i in range(n)]
+    script = [l for s in scens for l in s["lines"]]
+    impl = ctx.run_impl("desync", script, "debug")
+    st = ctx.cov["correspondence"].setdefault("desync/debug", {"ops": 0, "disagreements": 0, "skipped_for_model": 0})
+    mon = ctx.cov["monitors"].setdefault("desync_level", {"scenarios": 0, "advances": 0, "reports_sent": 0, "events": 0, "honest": 0})
+    i = 0
+    mscript, mexpect = [], []
+    for s in scens:
+        out = impl[i:i + len(s["lines"])]; i += len(s["lines"])
+        mon["scenarios"] += 1; mon["honest"] += s["honest"]
+        ms, idx = model_script(s, out)
+        for line, k in zip(ms, idx):
+            mscript.append(line)
+            r = out[k]
+            m = DS.search(r)
+            if line.startswith("advance") and m:
+                mon["advances"] += 1; mon["reports_sent"] += m.group(3) != "-"; mon["events"] += m.group(4) != "-"
+                mexpect.append("rep=%s ev=%s sent=%s hist=%s pend=%s" % (m.group(3), m.group(4), m.group(5), m.group(6), m.group(7)))
+            else:
+                mexpect.append("ok")
+        for cls, what in monitor(s, out)[:1]:
+            ctx.hit(cls, what, {"level": "desync", "scenario": s})
+        ctx.count(sample={"cfg": s["lines"][0], "last": out[-1][-160:]} if mon["scenarios"] % 37 == 1 else None,
+                  nontrivial_key=("desync", s["lines"][0], len(s["lines"])))
+    model = ctx.run_model("desync", mscript, "debug")
+    for op, a, b in zip(mscript, mexpect, model):
+        st["ops"] += 1
+        if a != b:
+            st["disagreements"] += 1
+            if len(ctx.corr_failures) < 50:
+                ctx.corr_failures.append({"what": "correspondence desync/debug", "op": op[:200], "impl": a[:200], "model": b[:200]})
+    ctx.cov["traces_validated_against_impl"] += len(mscript)
+
 def run(ctx):
-    generic_run(ctx, LABELS, [("desync", lambda: F.fam_desync(ctx.rng, sizes(ctx, 200, 2000))), ("diverge", lambda: F.fam_desync(ctx.rng, sizes(ctx, 120, 1000), tag="div", diverge=True)), ("c01d", lambda: F.fam_c01(ctx.rng, sizes(ctx, 100, 1000), tag="c09", desyncs=(1, 2, 5, 12)))])
+    generic_run(ctx, LABELS, extra=run_desync_level, plan=[("desync", lambda: F.fam_desync(ctx.rng, sizes(ctx, 200, 2000))), ("diverge", lambda: F.fam_desync(ctx.rng, sizes(ctx, 120, 1000), tag="div", diverge=True)), ("c01d", lambda: F.fam_c01(ctx.rng, sizes(ctx, 100, 1000), tag="c09", desyncs=(1, 2, 5, 12)))])
+
 def replay(ctx, path):
-    return sim_replay(ctx, path, LABELS)
+    import json
+    body = json.load(open(path))
+    bad = 0
+    rest = []
+    for h in body.get("failing_inputs", []):
+        rp = h.get("replay", {})
+        if rp.get("level") == "desync":
+            ctx.needed_consts = []; ctx.consts = {}
+            ctx.build_harness(("debug",))
+            out = ctx.run_impl("desync", rp["scenario"]["lines"], "debug")
+            hs = monitor(rp["scenario"], out)
+            print("replay desync scenario (%d ops) -> %s" % (len(out), hs[0][1] if hs else "property holds"))
+            bad += bool(hs)
+        else:
+            rest.append(h)
+    if rest or not body.get("failing_inputs"):
+        rc = sim_replay(ctx, path, LABELS)
+        return 1 if (rc or bad) else 0
+    if bad:
+        print("VIOLATION property=C09 replay=%s" % path)
+    return 1 if bad else 0
